@@ -29,6 +29,18 @@ fn p_obj_lifecycle() {
     }
     kani::cover!(true, "end");
 }
+#[kani::proof]
+#[kani::unwind(4)]
+fn p_obj_consume_with_ret_tmp() {
+    // by-value call on an object that carries non-empty temporary storage
+    let id: u32 = kani::any();
+    let obj = trait_obj!(P::new(id) as Both);
+    if kani::any() { assert!(obj.inner().look() == id ^ 7, "C06 borrowed child usable"); }
+    assert!(drops() == 0);
+    let r = obj.finish();
+    assert!(r == id ^ 0x55, "C06 by-value method received the value");
+    assert!(drops() == 1 && made() == 1, "C06 a by-value call destroys the value exactly once (object with temporary storage)");
+}
 //@ prefix=p_ref kind=property clause=by-reference, by-mutable-reference and reference-counted objects never drop or free what they borrow; the referent stays usable
 #[kani::proof]
 #[kani::unwind(4)]
